@@ -92,12 +92,13 @@ func (t *Input) Extend(x Type) error {
 // CoerceIn coerces an input value into the expected input type if possible
 // otherwise an error is returned.
 func (t *Input) CoerceIn(v interface{}) (interface{}, error) {
-	return t.coerceIn(v, nil)
+	return t.coerceIn(v, nil, false)
 }
 
 // coerceIn is CoerceIn, filling lists the input types whose defaults are
-// being filled in on the way to this call.
-func (t *Input) coerceIn(v interface{}, filling []*Input) (interface{}, error) {
+// being filled in on the way to this call. If plain is true the Go type bound
+// to the input type is left aside and the value stays a map, see plainCoerce.
+func (t *Input) coerceIn(v interface{}, filling []*Input, plain bool) (interface{}, error) {
 	switch tv := v.(type) {
 	case nil:
 		// nil is okay at this point
@@ -115,6 +116,9 @@ func (t *Input) coerceIn(v interface{}, filling []*Input) (interface{}, error) {
 		}
 		var rv reflect.Value
 		rt := t.meta
+		if plain {
+			rt = nil
+		}
 		if rt != nil {
 			if rt.Kind() == reflect.Ptr {
 				rt = rt.Elem()
@@ -134,7 +138,7 @@ func (t *Input) coerceIn(v interface{}, filling []*Input) (interface{}, error) {
 					// An object default (also in a list) is a value of the
 					// field's type like one that was given: the defaults of
 					// its own fields are filled in.
-					dv = fillDefault(f.Type, dv, append(filling, t))
+					dv = fillDefault(f.Type, dv, append(filling, t), plain)
 					if rt != nil {
 						if err := t.reflectSetKey(rv, k, dv); err != nil {
 							return nil, inErr(err, k)
@@ -146,7 +150,14 @@ func (t *Input) coerceIn(v interface{}, filling []*Input) (interface{}, error) {
 					return nil, fmt.Errorf("%s is required but missing", k)
 				}
 			} else if co, _ := f.Type.(InCoercer); co != nil {
-				if cv, err := co.CoerceIn(ov); err == nil {
+				var cv interface{}
+				var err error
+				if plain {
+					cv, err = plainCoerce(f.Type, ov)
+				} else {
+					cv, err = co.CoerceIn(ov)
+				}
+				if err == nil {
 					if rt != nil {
 						if err = t.reflectSetKey(rv, k, cv); err != nil {
 							return nil, inErr(err, k)
@@ -176,14 +187,14 @@ func (t *Input) coerceIn(v interface{}, filling []*Input) (interface{}, error) {
 // dv, a default of type ft. An input type that refers to itself through a
 // default (sub: Filter = {}) would never end, its default is left as it is
 // written the second time around.
-func fillDefault(ft Type, dv interface{}, filling []*Input) interface{} {
+func fillDefault(ft Type, dv interface{}, filling []*Input, plain bool) interface{} {
 	switch tt := ft.(type) {
 	case *NonNull:
-		return fillDefault(tt.Base, dv, filling)
+		return fillDefault(tt.Base, dv, filling, plain)
 	case *List:
 		if list, ok := dv.([]interface{}); ok {
 			for i, m := range list {
-				list[i] = fillDefault(tt.Base, m, filling)
+				list[i] = fillDefault(tt.Base, m, filling, plain)
 			}
 		}
 	case *Input:
@@ -193,12 +204,45 @@ func fillDefault(ft Type, dv interface{}, filling []*Input) interface{} {
 					return dv
 				}
 			}
-			if cv, err := tt.coerceIn(m, filling); err == nil {
+			if cv, err := tt.coerceIn(m, filling, plain); err == nil {
 				dv = cv
 			}
 		}
 	}
 	return dv
+}
+
+// plainCoerce is CoerceIn for the values the schema keeps, the arguments of
+// directive uses and the defaults of directive arguments. An input object
+// stays a map with its defaults filled in. The Go type an application has
+// bound to an input type is what a resolver is handed, it can not be written
+// as SDL.
+func plainCoerce(t Type, v interface{}) (interface{}, error) {
+	switch tt := t.(type) {
+	case *NonNull:
+		if v != nil {
+			return plainCoerce(tt.Base, v)
+		}
+	case *List:
+		if list, ok := v.([]interface{}); ok {
+			for i, m := range list {
+				cv, err := plainCoerce(tt.Base, m)
+				if err != nil {
+					return nil, err
+				}
+				list[i] = cv
+			}
+			return list, nil
+		}
+	case *Input:
+		if m, ok := v.(map[string]interface{}); ok {
+			return tt.coerceIn(m, nil, true)
+		}
+	}
+	if co, _ := t.(InCoercer); co != nil {
+		return co.CoerceIn(v)
+	}
+	return v, nil
 }
 
 func inErr(err error, k string) error {
